@@ -13,10 +13,11 @@ VARIABLES owner,   \* [Objs -> Conns \cup {"pool", "fresh"}]
           used,    \* set of <<conn, obj, ownerAtUse>> : every call into a pooled object
           stale,   \* objects that still hold plaintext of the connection that used them last (window content)
           leaked,  \* a connection was handed an object that still held another connection's plaintext
+          appHolds, \* pooled objects into whose memory the APPLICATION still holds a slice (a result some read handed out)
           steps
-vars == <<owner, holds, ref, msg, used, stale, leaked, steps>>
+vars == <<owner, holds, ref, msg, used, stale, leaked, appHolds, steps>>
 Init == /\ owner = [o \in Objs |-> "fresh"] /\ holds = [c \in Conns |-> "none"] /\ ref = [c \in Conns |-> "none"]
-        /\ msg = [c \in Conns |-> "none"] /\ used = {} /\ stale = {} /\ leaked = FALSE /\ steps = 0
+        /\ msg = [c \in Conns |-> "none"] /\ used = {} /\ stale = {} /\ leaked = FALSE /\ appHolds = {} /\ steps = 0
 Tick == steps < MaxSteps /\ steps' = steps + 1
 (* a compressed message starts: take any pooled object, or a fresh one if the pool is empty *)
 Start(c) == /\ Tick /\ msg[c] \in {"none", "eof"}
@@ -24,28 +25,38 @@ Start(c) == /\ Tick /\ msg[c] \in {"none", "eof"}
                  /\ owner[o] = "pool" \/ (owner[o] = "fresh" /\ \A p \in Objs : owner[p] # "pool")
                  /\ owner' = [owner EXCEPT ![o] = c] /\ holds' = [holds EXCEPT ![c] = o] /\ ref' = [ref EXCEPT ![c] = o]
                  /\ leaked' = (leaked \/ o \in stale)
-            /\ msg' = [msg EXCEPT ![c] = "open"] /\ UNCHANGED <<used, stale>>
+            /\ msg' = [msg EXCEPT ![c] = "open"] /\ UNCHANGED <<used, stale, appHolds>>
 ReadPart(c) == /\ Tick /\ msg[c] = "open" /\ used' = used \cup {<<c, ref[c], owner[ref[c]]>>}
                /\ stale' = stale \cup {ref[c]}        \* the object now holds c's plaintext
-               /\ UNCHANGED <<owner, holds, ref, msg, leaked>>
+               /\ UNCHANGED <<owner, holds, ref, msg, leaked, appHolds>>
 ReadToEnd(c) == /\ Tick /\ msg[c] = "open" /\ used' = used \cup {<<c, ref[c], owner[ref[c]]>>}
                 /\ owner' = [owner EXCEPT ![holds[c]] = "pool"] /\ holds' = [holds EXCEPT ![c] = "none"]
                 /\ stale' = IF "PutWithoutClear" \in Dev THEN stale \cup {holds[c]} ELSE stale \ {holds[c]}   \* returned objects are cleared
-                /\ msg' = [msg EXCEPT ![c] = "eof"] /\ UNCHANGED <<ref, leaked>>
+                /\ msg' = [msg EXCEPT ![c] = "eof"] /\ UNCHANGED <<ref, leaked, appHolds>>
 (* reading again after the end: the fixed code answers EOF without touching ref *)
 ReadAgain(c) == /\ Tick /\ msg[c] = "eof"
                 /\ IF "ReadAgainUsesRef" \in Dev THEN used' = used \cup {<<c, ref[c], owner[ref[c]]>>} ELSE UNCHANGED used
-                /\ UNCHANGED <<owner, holds, ref, msg, stale, leaked>>
+                /\ UNCHANGED <<owner, holds, ref, msg, stale, leaked, appHolds>>
 (* the connection closes at any moment, also in the middle of a message *)
 Close(c) == /\ Tick /\ msg[c] # "closed"
             /\ owner' = IF holds[c] # "none" THEN [owner EXCEPT ![holds[c]] = "pool"] ELSE owner
             /\ stale' = IF holds[c] # "none" /\ "PutWithoutClear" \notin Dev THEN stale \ {holds[c]} ELSE stale
-            /\ holds' = [holds EXCEPT ![c] = "none"] /\ msg' = [msg EXCEPT ![c] = "closed"] /\ UNCHANGED <<ref, used, leaked>>
-Next == \E c \in Conns : Start(c) \/ ReadPart(c) \/ ReadToEnd(c) \/ ReadAgain(c) \/ Close(c)
+            /\ holds' = [holds EXCEPT ![c] = "none"] /\ msg' = [msg EXCEPT ![c] = "closed"] /\ UNCHANGED <<ref, used, leaked, appHolds>>
+(* Conn.Read / wsjson.Read: the library collects a whole message -- possibly in a pooled buffer -- and hands the caller a slice, with *)
+(* or without an error.  What the caller gets is its own: a private copy.  Dev "ResultAliasesPool" hands out the pooled buffer's own *)
+(* bytes (and puts the buffer back): the next connection to take it overwrites what the caller was given.                            *)
+ReadWhole(c) == /\ Tick /\ msg[c] \in {"none", "eof"}
+                /\ IF "ResultAliasesPool" \in Dev
+                     THEN \E o \in Objs : owner[o] \in {"pool", "fresh"} /\ appHolds' = appHolds \cup {o} /\ owner' = [owner EXCEPT ![o] = "pool"]
+                     ELSE UNCHANGED <<appHolds, owner>>
+                /\ UNCHANGED <<holds, ref, msg, used, stale, leaked>>
+Next == \E c \in Conns : Start(c) \/ ReadPart(c) \/ ReadToEnd(c) \/ ReadAgain(c) \/ Close(c) \/ ReadWhole(c)
 Spec == Init /\ [][Next]_vars
 UseImpliesOwner == \A u \in used : u[3] = u[1]
 NoSharedOwner == \A c \in Conns : holds[c] # "none" => owner[holds[c]] = c
 (* a connection never starts on an object that still holds another connection's plaintext *)
 FreshObjectsClean == ~leaked
+(* memory the application was handed is never again in the pool or in the hands of a connection *)
+ResultsArePrivate == \A o \in appHolds : owner[o] \notin Conns \cup {"pool"}
 AtMostOneHolder == \A c, d \in Conns : (c # d /\ holds[c] # "none") => holds[c] # holds[d]
 =============================================================================
